@@ -31,12 +31,15 @@ namespace nmtools::index
             }
 
             auto src_channel_axis = -(nm_index_t)n_planes - 1;
-            auto dst_group_axis   = -(nm_index_t)n_planes - 2;
+            // (..., groups, 1 (n_output bcast), channel per group, planes...): the group axis is in front of the
+            // axis that broadcasts against the output channels of a group, as in the reshaped weight
+            auto dst_group_axis   = -(nm_index_t)n_planes - 3;
+            auto dst_channel_axis = -(nm_index_t)n_planes - 1;
 
             auto n_channel_per_group = at(src_shape,src_channel_axis) / groups;
 
             at(result,dst_group_axis)   = groups;
-            at(result,dst_group_axis+1) = n_channel_per_group;
+            at(result,dst_channel_axis) = n_channel_per_group;
 
             for (nm_index_t i=1; i<=nm_index_t(n_planes); i++) {
                 at(result,-i) = at(src_shape,-i);
@@ -83,10 +86,11 @@ namespace nmtools::index
                 // TODO: check if divisible
                 at(result,i) = at(src_shape,i);
             }
-            auto group_axis = meta::ct_v<1>;
-            auto outch_axis = meta::ct_v<0>;
+            // (groups, n_output per group, ...): output channel o belongs to group o / (n_output / groups)
+            auto group_axis = meta::ct_v<0>;
+            auto outch_axis = meta::ct_v<1>;
+            at(result,outch_axis) = at(src_shape,meta::ct_v<0>) / groups;
             at(result,group_axis) = groups;
-            at(result,outch_axis) = at(src_shape,outch_axis) / groups;
         }
 
         return result;
@@ -117,11 +121,19 @@ namespace nmtools::index
                 at(result,-i) = at(src_shape,-i);
             }
             
-            auto group_axis = meta::ct_v<2>;
-            auto outch_axis = meta::ct_v<1>;
-            auto batch_axis = meta::ct_v<0>;
-            at(result,batch_axis) = at(src_shape,batch_axis);
-            at(result,outch_axis) = at(src_shape,outch_axis) * at(src_shape,group_axis);
+            if ((nm_size_t)src_dim > (nm_size_t)n_planes + 2) {
+                // (batch, groups, n_output per group, planes...) -> (batch, n_output, planes...)
+                auto batch_axis = meta::ct_v<0>;
+                auto group_axis = meta::ct_v<1>;
+                auto outch_axis = meta::ct_v<2>;
+                at(result,batch_axis) = at(src_shape,batch_axis);
+                at(result,meta::ct_v<1>) = at(src_shape,group_axis) * at(src_shape,outch_axis);
+            } else {
+                // unbatched input: (groups, n_output per group, planes...) -> (n_output, planes...)
+                auto group_axis = meta::ct_v<0>;
+                auto outch_axis = meta::ct_v<1>;
+                at(result,meta::ct_v<0>) = at(src_shape,group_axis) * at(src_shape,outch_axis);
+            }
         }
 
         return result;
